@@ -41,8 +41,79 @@ import (
 )
 
 type dumper struct {
-	d  *ast.Document
-	sb strings.Builder
+	d     *ast.Document
+	sb    strings.Builder
+	canon bool // block-string descriptions by BlockStringValue() (common indent and blank edge lines removed)
+}
+
+// DumpDocumentCanon is DumpDocument with the content of block-string DESCRIPTIONS replaced by its
+// GraphQL BlockStringValue() (the printer re-indents descriptions on purpose, so their raw bytes are
+// not a round-trip invariant, their value is).  String values are left raw: the printer emits them raw.
+func DumpDocumentCanon(doc *ast.Document) string {
+	x := &dumper{d: doc, canon: true}
+	x.sb.WriteString("(doc")
+	for _, n := range doc.RootNodes {
+		x.sb.WriteByte(' ')
+		x.root(n)
+	}
+	x.sb.WriteByte(')')
+	return x.sb.String()
+}
+
+// BlockStringValue implements https://spec.graphql.org/October2021/#BlockStringValue() on raw bytes.
+func BlockStringValue(raw []byte) []byte {
+	var lines [][]byte
+	start := 0
+	for i := 0; i < len(raw); i++ {
+		if raw[i] == '\n' {
+			lines = append(lines, raw[start:i])
+			start = i + 1
+		} else if raw[i] == '\r' {
+			lines = append(lines, raw[start:i])
+			if i+1 < len(raw) && raw[i+1] == '\n' {
+				i++
+			}
+			start = i + 1
+		}
+	}
+	lines = append(lines, raw[start:])
+	indentOf := func(l []byte) int {
+		n := 0
+		for n < len(l) && (l[n] == ' ' || l[n] == '\t') {
+			n++
+		}
+		return n
+	}
+	common := -1
+	for i := 1; i < len(lines); i++ {
+		ind := indentOf(lines[i])
+		if ind < len(lines[i]) && (common == -1 || ind < common) {
+			common = ind
+		}
+	}
+	if common > 0 {
+		for i := 1; i < len(lines); i++ {
+			if len(lines[i]) >= common {
+				lines[i] = lines[i][common:]
+			} else {
+				lines[i] = lines[i][len(lines[i]):]
+			}
+		}
+	}
+	for len(lines) > 0 && indentOf(lines[0]) == len(lines[0]) {
+		lines = lines[1:]
+	}
+	for len(lines) > 0 && indentOf(lines[len(lines)-1]) == len(lines[len(lines)-1]) {
+		lines = lines[:len(lines)-1]
+	}
+	var out []byte
+	for i, l := range lines {
+		if i > 0 {
+			out = append(out, '\n')
+		}
+		out = append(out, l...)
+	}
+	return out
 }
 
 // DumpDocument renders doc as one S-expression line (no newline).
@@ -84,7 +155,11 @@ func (x *dumper) desc(ds ast.Description) {
 		return
 	}
 	x.w("(desc ")
-	x.ref(ds.Content)
+	if x.canon && ds.IsBlockString && int(ds.Content.End) <= len(x.d.Input.RawBytes) && ds.Content.Start <= ds.Content.End {
+		x.q(BlockStringValue(x.d.Input.RawBytes[ds.Content.Start:ds.Content.End]))
+	} else {
+		x.ref(ds.Content)
+	}
 	x.w(" " + common.B(ds.IsBlockString) + ")")
 }
 
